@@ -28,6 +28,7 @@ func actionKernelJobs(c *Ctx) []Job {
 			Target:         t,
 			Run:            SymRun{Harness: "VerifActionKernel", Params: map[string]int{"K": k, "MODE": 0}, LoopBound: 16, ForkFuncs: []string{"Action", "action"}},
 			Bounds:         fmt.Sprintf("item set of exactly %d arbitrary items over a 3-terminal alphabet, arbitrary symbol, arbitrary transition targets, in every order", k),
+			ReplayParams:   map[string]int{"REPEAT": 50},
 			RequiredCovers: []string{"end"},
 		})
 		if k >= 2 {
